@@ -50,6 +50,29 @@ fn main() {
             let i = s.find(&pat).map(|i| i + pat.len()).unwrap_or(0);
             s[i..].chars().take_while(|c| c.is_ascii_digit()).collect::<String>().parse().unwrap_or(0)
         };
+        if s.contains("\"kind\": \"straddle\"") || s.contains("\"kind\": \"registration\"") {
+            let tk = *vlab::drivers::ALL_TKINDS.iter().find(|t| s.contains(&format!("\"transport\": \"{}\"", t.name()))).expect("transport");
+            let (n, bits) = (g("N"), g("bits") as u8);
+            let v = if s.contains("\"kind\": \"straddle\"") {
+                match n {
+                    256 => c06::run_registration_straddling::<256>(tk, g("below"), bits),
+                    _ => c06::run_registration_straddling::<1024>(tk, g("below"), bits),
+                }
+            } else {
+                let (pre, skew) = (g("pre") as usize, g("skew") as u32);
+                match n {
+                    1 => c06::run_registration::<1>(tk, pre, skew, bits),
+                    8 => c06::run_registration::<8>(tk, pre, skew, bits),
+                    64 => c06::run_registration::<64>(tk, pre, skew, bits),
+                    _ => c06::run_registration::<256>(tk, pre, skew, bits),
+                }
+            };
+            println!("replay registration N={} on {}", n, tk.name());
+            for (k, d) in &v {
+                println!("VIOLATION property=C06 kind={} detail={}", k, d);
+            }
+            std::process::exit(if v.is_empty() { 0 } else { 1 });
+        }
         let c = Case { legacy: g("legacy") != 0, indirect: g("indirect") != 0, event_idx: g("event_idx") != 0, ap: g("ap") != 0, in_use: g("in_use") != 0, max: g("max") as u32, skew: g("skew") as u32, fail_alloc: g("fail_alloc") as u32 };
         let n = g("N");
         let h = std::thread::Builder::new().stack_size(512 << 20).spawn(move || replay_case(n, c)).unwrap();
@@ -130,6 +153,30 @@ fn main() {
                 }
             }
         }
+        // Regions that straddle a 4 GiB boundary of device address space (N = 256 and 1024: the
+        // descriptor table fills whole pages, so the available ring / used ring start on the
+        // other side of the boundary).
+        for tk in ALL_TKINDS {
+            let part = format!("registration:{}", tk.name());
+            let mut seen = std::collections::HashSet::new();
+            for below in 1..=5u64 {
+                for bits in 0..8u8 {
+                    for n in [256usize, 1024] {
+                        let v = match n {
+                            256 => vlab::c06::run_registration_straddling::<256>(tk, below, bits),
+                            _ => vlab::c06::run_registration_straddling::<1024>(tk, below, bits),
+                        };
+                        ev += 1;
+                        classes.insert((tk.name(), n + 1, v.is_empty()));
+                        for (k, d) in v {
+                            if seen.insert(k.clone()) {
+                                c.add_violation(Violation::new("C06", k, format!("{} transport, N={}, first region starting {} pages below a 4 GiB boundary, flags {:#b}: {}", tk.name(), n, below, bits, d)), &part, J::obj().set("kind", J::s("straddle")).set("transport", J::s(tk.name())).set("N", J::i(n)).set("below", J::i(below)).set("bits", J::i(bits)), vec![]);
+                            }
+                        }
+                    }
+                }
+            }
+        }
         // Maximum sizes that are not powers of two, through the real transports.
         for tk in ALL_TKINDS {
             let part = format!("registration:{}", tk.name());
@@ -167,7 +214,7 @@ fn main() {
                 }
             }
         }
-        c.add_sweep("registration: VirtQueue::new (N = 1, 8, 64, 256; 8 flag combinations) on the model, MMIO legacy, MMIO modern and PCI transports with the queue's regions starting in each of 7 different 4 GiB windows and two platform address skews; the addresses the register-level device received are held against the layout oracle; queue 1 of a two-queue device also created a second time after a re-initialisation; N = 8 against 16 device maxima including values that are not powers of two; a second creation of a live queue; DMA memory above 2^44", ev, classes.len() as u64, true, J::obj());
+        c.add_sweep("registration: VirtQueue::new (N = 1, 8, 64, 256; 8 flag combinations) on the model, MMIO legacy, MMIO modern and PCI transports with the queue's regions starting in each of 7 different 4 GiB windows and two platform address skews; the addresses the register-level device received are held against the layout oracle; queue 1 of a two-queue device also created a second time after a re-initialisation; N = 256 and 1024 with the first region starting 1-5 pages below a 4 GiB boundary; N = 8 against 16 device maxima including values that are not powers of two; a second creation of a live queue; DMA memory above 2^44", ev, classes.len() as u64, true, J::obj());
     }
     c.add_sample(J::obj().set("case", J::s("N=256 legacy=true indirect=false event_idx=true ap=false in_use=false max=256 -> created; queue_set(desc=P, driver=P+4096, device=P+8192), 3 pages freed once")));
     c.finish();
